@@ -388,7 +388,7 @@ impl World for WorldO {
             let admin = |rng: &mut Rng| if fault { *rng.pick(&[AuthVar::Former, AuthVar::OtherRole, AuthVar::Counterparty, AuthVar::Stranger, AuthVar::Nobody, AuthVar::RightOtherArgs]) } else { AuthVar::Right };
             let op = match rng.weighted(&w) {
                 0 => OOp::Add { who: if rng.chance(1, 8) { 0 } else { rng.range(1, 4) as u8 }, auth: admin(rng), abort },
-                1 => OOp::Remove { who: rng.range(1, 4) as u8, auth: admin(rng), abort },
+                1 => OOp::Remove { who: if rng.chance(1, 8) { *rng.pick(&[0u8, 5, 6]) } else { rng.range(1, 4) as u8 }, auth: admin(rng), abort },
                 2 => OOp::TransferOwnership { to: rng.below(NP as u64) as u8, auth: admin(rng), abort },
                 3 => {
                     let target = match rng.weighted(&[10, 4, 3, 4, 3, 2, 5, 1, 1]) {
